@@ -128,3 +128,91 @@ Example C09_ex_noattr :
   perform SNoAttr CDiscardChanges = ([EvRegister; EvSend], Sent)
   /\ perform SNoAttr (CCommit VStd true None None) = ([EvRegister], Exn AttributeError).
 Proof. split; vm_compute; reflexivity. Qed.
+
+(* ------------------------------------------------------------------------------------------ *)
+(* Vendor operation classes (ncclient/operations/third_party/*/rpc.py) other than the Junos / SR OS
+   Commit (which are CCommit VJunos / VSros above).  Model: Model/VendorGating.v — alu
+   load_configuration / get_configuration, h3c get_bulk_config (the three callers of
+   datastore_or_url(…, self._assert)) and the 25 classes that check nothing.
+   Spec: Spec/VendorGatingSpec.v (vneeds, vwellformed).  Quantification: ALL capability lists,
+   ALL vendor calls and argument records. *)
+From NC Require Import Model.VendorGating Spec.VendorGatingSpec Proofs.VendorGatingProofs.
+
+(* a URL handed to alu load_configuration(target=) / h3c get_bulk_config(source=) while the server does
+   not advertise :url: the call raises (MissingCapabilityError unless an argument is refused first),
+   nothing is sent *)
+Theorem C09_vendor_refused : forall (uris : list bytes) (c : vgcall) (k : bytes),
+  In k (vneeds c) -> ~ advertised uris k ->
+  exists e, snd (vperform (SCaps (caps_of uris)) c) = Exn e
+            /\ count_send (fst (vperform (SCaps (caps_of uris)) c)) = 0%nat
+            /\ (vwellformed c = true -> e = MissingCapability).
+Proof. exact c09_vendor_refused. Qed.
+Print Assumptions C09_vendor_refused.
+
+(* every documented dependency advertised: sent, once *)
+Theorem C09_vendor_allowed : forall (uris : list bytes) (c : vgcall),
+  vwellformed c = true -> (forall k, In k (vneeds c) -> advertised uris k) ->
+  snd (vperform (SCaps (caps_of uris)) c) = Sent
+  /\ count_send (fst (vperform (SCaps (caps_of uris)) c)) = 1%nat.
+Proof. exact c09_vendor_allowed. Qed.
+Print Assumptions C09_vendor_allowed.
+
+(* a vendor call without a URL argument is sent whatever the server advertises (even nothing) *)
+Theorem C09_vendor_ungated : forall (uris : list bytes) (c : vgcall),
+  vneeds c = [] -> vwellformed c = true ->
+  snd (vperform (SCaps (caps_of uris)) c) = Sent
+  /\ count_send (fst (vperform (SCaps (caps_of uris)) c)) = 1%nat.
+Proof. exact c09_vendor_ungated. Qed.
+Print Assumptions C09_vendor_ungated.
+
+(* whatever the session and the vendor call: an exception means no send, a sent request exactly one *)
+Theorem C09_vendor_send_once : forall (s : sess) (c : vgcall),
+  match snd (vperform s c) with
+  | Sent => count_send (fst (vperform s c)) = 1%nat
+  | Exn _ => count_send (fst (vperform s c)) = 0%nat
+  end.
+Proof. exact c09_vendor_send_once. Qed.
+Print Assumptions C09_vendor_send_once.
+
+(* the capability tests request() performs are exactly the documented needs, in order *)
+Theorem C09_vendor_needs_exact : forall c : vgcall,
+  vwellformed c = true -> asserts (vg_steps c) = vneeds c.
+Proof. exact c09_vendor_needs_exact. Qed.
+Print Assumptions C09_vendor_needs_exact.
+
+(* ---------------- non-vacuity ---------------- *)
+Definition ex_uris_nourl : list bytes :=
+  [ lit "urn:ietf:params:netconf:base:1.0"%string; lit "urn:ietf:params:netconf:capability:candidate:1.0"%string ].
+
+Example C09_ex_vendor_refused_hyp :
+  let c := GALoadConfiguration (lit "cli"%string) (ok_ds "ftp://h/cfg") (Some None) None in
+  In s_k_url (vneeds c) /\ ~ advertised ex_uris_nourl s_k_url /\ vwellformed c = true.
+Proof. cbv zeta. split; [vm_compute; auto|]. split; [apply absent_iff; vm_compute; reflexivity|reflexivity]. Qed.
+
+Example C09_ex_vendor_refused :
+  vperform (SCaps (caps_of ex_uris_nourl)) (GALoadConfiguration (lit "cli"%string) (ok_ds "ftp://h/cfg") (Some None) None)
+    = ([EvRegister; EvAssert s_k_url], Exn MissingCapability)
+  /\ vperform (SCaps (caps_of ex_uris_nourl)) (GHGetBulkConfig (ok_ds "file:///x") None)
+    = ([EvRegister; EvAssert s_k_url], Exn MissingCapability).
+Proof. split; vm_compute; reflexivity. Qed.
+
+Example C09_ex_vendor_allowed :
+  vperform S_ex (GHGetBulkConfig (ok_ds "file:///x") None) = ([EvRegister; EvAssert s_k_url; EvSend], Sent)
+  /\ vperform S_ex (GALoadConfiguration (lit "xml"%string) (ok_ds "http://h/x") (Some None) None)
+     = ([EvRegister; EvAssert s_k_url; EvSend], Sent)
+  (* a datastore name, the literal 'running' of alu get_configuration, a format that builds no <target>,
+     no config at all, a class without datastore argument: nothing is asked *)
+  /\ vperform (SCaps (caps_of [])) (GHGetBulkConfig (ok_ds "running") None) = ([EvRegister; EvSend], Sent)
+  /\ vperform (SCaps (caps_of [])) (GAGetConfiguration None) = ([EvRegister; EvSend], Sent)
+  /\ vperform (SCaps (caps_of [])) (GALoadConfiguration (lit "json"%string) (ok_ds "http://h/x") (Some None) None) = ([EvRegister; EvSend], Sent)
+  /\ vperform (SCaps (caps_of [])) (GALoadConfiguration (lit "xml"%string) (ok_ds "http://h/x") None None) = ([EvRegister; EvSend], Sent)
+  /\ vperform (SCaps (caps_of [])) (GPlain KHCli None) = ([EvRegister; EvSend], Sent).
+Proof. repeat split; vm_compute; reflexivity. Qed.
+
+(* a locally refused argument in front of / behind the check *)
+Example C09_ex_vendor_malformed :
+  vperform S_ex (GHGetBulkConfig (DsStr (lit "ftp://h/x"%string) false) None) = ([EvRegister; EvAssert s_k_url], Exn ValueError)
+  /\ vperform (SCaps (caps_of ex_uris_nourl)) (GHGetBulkConfig (DsStr (lit "ftp://h/x"%string) false) None)
+     = ([EvRegister; EvAssert s_k_url], Exn MissingCapability)
+  /\ vperform S_ex (GALoadConfiguration (lit "xml"%string) (DsBad TypeError) (Some None) None) = ([EvRegister], Exn TypeError).
+Proof. repeat split; vm_compute; reflexivity. Qed.
